@@ -88,3 +88,107 @@ def hs_of_map(shape, kraus_weights):
 def choi_of_map(kraus_weights):
     """sum_k p_k |K_k>><<K_k| (row-major vectorisation): its spectrum is d * p_k for orthogonal unitaries."""
     return sum(p * np.outer(K.reshape(-1), K.reshape(-1).conj()) for p, K in kraus_weights)
+
+
+# ---------------------------------------------------------------- objects from spectral vectors (C04, C05)
+class Fragment:
+    """One covariant fragment: builds a library object from a rational spectral vector u and reads the
+    spectral vector of a library object back (plus how far the object is from the fragment)."""
+
+    def __init__(self, typ, shape, n, rs, frame_kind="complex", m=None):
+        self.typ, self.shape, self.n = typ, shape, n
+        self.sys = SHAPES[shape]
+        self.d = int(np.prod(self.sys))
+        self.c = csys_of(shape)
+        if typ == "state":
+            assert n == self.d
+            self.U = frame(frame_kind, self.d, rs)
+        elif typ == "povm":
+            self.m = n
+            self.U = frame(frame_kind, self.d, rs)
+        else:
+            self.W = local_frame(frame_kind, self.sys, rs)
+            self.ops = [self.W @ K for K in weyl(self.sys)]
+            self.nw = len(self.ops)
+            self.m = 1 if typ == "gate" else n // self.nw
+            assert self.m * self.nw == n
+            self.basis_hs = [hs_of_map(shape, [(1.0, K)]) for K in self.ops]
+            self.norm2 = float(np.sum(self.basis_hs[0] ** 2))
+
+    # scale between the Euclidean metric on u and the stacked-parameter metric of the library
+    def metric(self):
+        return 1.0 if self.typ == "state" else (float(self.d) if self.typ == "povm" else self.norm2)
+
+    def perm(self, u, j):
+        return np.roll(np.asarray(u, dtype=float), j)
+
+    def build(self, u, **kw):
+        from quara.objects.state import State
+        from quara.objects.povm import Povm
+        from quara.objects.gate import Gate
+        from quara.objects.mprocess import MProcess
+        u = np.asarray(u, dtype=np.float64)
+        kw.setdefault("is_physicality_required", False)
+        if self.typ == "state":
+            return State(self.c, vec_of(self.shape, (self.U * u) @ self.U.conj().T), **kw)
+        if self.typ == "povm":
+            # diagonal position j carries the vector u cyclically shifted by j
+            E = np.array([self.perm(u, j) for j in range(self.d)]).T        # E[x, j]
+            return Povm(self.c, [vec_of(self.shape, (self.U * E[x]) @ self.U.conj().T) for x in range(self.m)], **kw)
+        if self.typ == "gate":
+            return Gate(self.c, sum(p * B for p, B in zip(u, self.basis_hs)), **kw)
+        hss = [sum(p * B for p, B in zip(u[x * self.nw:(x + 1) * self.nw], self.basis_hs)) for x in range(self.m)]
+        return MProcess(self.c, hss, **kw)
+
+    def read(self, obj):
+        """(spectral vector, distance of the object from the fragment)."""
+        B = basis_dense(self.shape)
+        if self.typ == "state":
+            X = sum(c * b for c, b in zip(obj.vec, B))
+            D = self.U.conj().T @ X @ self.U
+            return np.real(np.diag(D)), float(np.linalg.norm(D - np.diag(np.diag(D))))
+        if self.typ == "povm":
+            cols = []
+            off = 0.0
+            for v in obj.vecs:
+                X = sum(c * b for c, b in zip(v, B))
+                D = self.U.conj().T @ X @ self.U
+                cols.append(np.real(np.diag(D)))
+                off += float(np.linalg.norm(D - np.diag(np.diag(D))))
+            E = np.array(cols)                   # E[x, j]
+            # position 0 carries u itself; the other positions must be its cyclic shifts
+            u = E[:, 0]
+            for j in range(1, self.d):
+                off += float(np.linalg.norm(E[:, j] - np.roll(u, j)))
+            return u, off
+        hss = [obj.hs] if self.typ == "gate" else list(obj.hss)
+        out = []
+        off = 0.0
+        for hs in hss:
+            w = np.array([float(np.sum(hs * Bk)) / self.norm2 for Bk in self.basis_hs])
+            off += float(np.linalg.norm(hs - sum(p * Bk for p, Bk in zip(w, self.basis_hs))))
+            out.extend(w)
+        return np.array(out), off
+
+
+def fragments_for(n, rs, tier="quick"):
+    """the covariant fragments whose spectral vectors have length n."""
+    kinds = ["identity", "real", "complex"]
+    out = []
+    def add(typ, shape):
+        out.append(Fragment(typ, shape, n, rs, kinds[len(out) % 3] if len(out) % 4 else "complex"))
+    if n == 2:
+        add("state", "q"); add("povm", "q"); add("povm", "t")
+    elif n == 3:
+        add("state", "t"); add("povm", "q"); add("povm", "t")
+    elif n == 4:
+        add("state", "qq"); add("gate", "q"); add("povm", "q")
+    elif n == 5:
+        add("povm", "q")
+    elif n == 6:
+        add("state", "qt")
+    elif n == 8:
+        add("mprocess", "q")
+    elif n == 9:
+        add("gate", "t")
+    return out
